@@ -163,7 +163,7 @@ def gen_connect_fault_case(rng: random.Random) -> dict:
     client: dict = {"keepalive": 20.0}
     device: dict = {}
     net: dict = {}
-    kind = pick(rng, ["resolver", "mdns", "tcp", "handshake_silence", "hello_silence", "connect_silence", "wrong_order", "close_on_accept", "framing_mismatch", "slow_replies"])
+    kind = pick(rng, ["resolver", "mdns", "tcp", "handshake_silence", "hello_silence", "connect_silence", "wrong_order", "close_on_accept", "framing_mismatch", "slow_replies", "sock_api"])
     addrs = ["10.0.0.5"]
     if kind == "resolver":
         addrs = ["dev.example.com"]
@@ -229,10 +229,14 @@ def gen_connect_fault_case(rng: random.Random) -> dict:
     else:
         steps += [{"do": "start"}, {"do": "finish", "login": login}]
     steps += [{"do": "device_info"}, {"do": "disconnect"}]
+    knobs = gen_knobs(rng)
+    if kind == "sock_api":
+        # the freshly connected socket fails an OS call the connect phase makes on it (peer reset right after connect)
+        knobs["sock_fail"] = pick(rng, ["nodelay", "getpeername"])
     scn = {
         "family": "session",
         "kind": kind,
-        "knobs": gen_knobs(rng),
+        "knobs": knobs,
         "client": client,
         "device": device,
         "net": net,
